@@ -26,7 +26,7 @@ func (Engine) Plan(prop, tier string) kernel.Plan {
 	if tier == "thorough" {
 		random = 400000
 	}
-	p := kernel.Plan{Pin: true}
+	p := kernel.Plan{Pin: true, CrashProne: true}
 	p.Exhaustive = 1 + len(info.chunks)
 	p.ExhaustiveNote = fmt.Sprintf("all %d histories of up to %d actions applicable after StartWatchingLedgerChannel(P) with one sub-channel and versions <= %d "+
 		"(start S; publish P with S locked or not; publish S; registered event for P or S with version 0..min(newest+1,%d); progressed / concluded event for P or S; "+
@@ -69,7 +69,7 @@ type gmodel struct {
 func genRandom(r *kernel.Rand) *kernel.Scenario {
 	sc := &kernel.Scenario{Config: map[string]int64{}}
 	c := sc.Config
-	nsub := 1 + r.Weighted([]int{4, 3, 3})
+	nsub := 1 + r.Weighted([]int{3, 4, 3})
 	c["self_events"] = int64(r.Intn(2))
 	c["yield_pct"] = int64([]int{0, 30, 100}[r.Intn(3)])
 	c["reg_max_us"] = int64([]int{5, 200, 1500}[r.Intn(3)])
@@ -77,10 +77,10 @@ func genRandom(r *kernel.Rand) *kernel.Scenario {
 	c["async_max_us"] = int64([]int{2, 30, 1200}[r.Intn(3)])
 	asyncP := []float64{0, 0.2, 0.6}[r.Intn(3)]
 	gaps := [][]int{
-		{0, 0, 1, 3, 20},                         // bursts
-		{0, 1, 30, 300, 900, 1000, 1100, 2500},   // around the watcher's 1 ms waits
-		{0, 5, 500, 3000, 8000, 30000},           // mixed
-		{10000, 20000, 30000},                    // at quiescence
+		{0, 0, 1, 3, 20},                       // bursts
+		{0, 1, 30, 300, 900, 1000, 1100, 2500}, // around the watcher's 1 ms waits
+		{0, 5, 500, 3000, 8000, 30000},         // mixed
+		{10000, 20000, 30000},                  // at quiescence
 	}[r.Weighted([]int{2, 4, 3, 1})]
 	// swarm: per run some kinds of action are rare or absent
 	w := map[string]int{"startS": 6, "pubP": 8, "pubS": 8, "reg": 12, "prog": 3, "concl": 3, "stopS": 3, "stopP": 3}
@@ -129,19 +129,33 @@ func genRandom(r *kernel.Rand) *kernel.Scenario {
 			}
 		}
 		mask := 0
+		unlockedEligible := 0
 		for _, j := range eligible {
-			keep := 0.35
+			keep := 0.55
 			if m.locked[j] {
-				keep = 0.8
+				keep = 0.85
+			} else {
+				unlockedEligible++
 			}
 			if r.Bool(keep) {
 				mask |= 1 << (j - 1)
 			}
 		}
-		add(w["pubP"], kernel.St("pub", "ch", 0, "lock", mask, "ord", r.Intn(8)))
+		// a freshly watched sub-channel should soon be locked (funded) in P
+		add(w["pubP"]*(1+unlockedEligible), kernel.St("pub", "ch", 0, "lock", mask, "ord", r.Intn(8)))
+		archivedLocked := 0
+		for j := 1; j <= nsub; j++ {
+			if m.sw[j] == 2 && m.arch[j] && m.locked[j] {
+				archivedLocked++
+			}
+		}
 		for _, k := range append([]int{0}, watched...) {
+			// versions 0..newest+1, outdated ones preferred
 			ver := r.Range(0, m.v[k]+1)
-			wk := w["reg"]
+			if m.v[k] > 0 && r.Bool(0.5) {
+				ver = r.Range(0, m.v[k]-1)
+			}
+			wk := w["reg"] * (1 + archivedLocked)
 			if k > 0 {
 				wk = wk * 2 / 3
 			}
